@@ -65,6 +65,9 @@ type World struct {
 	// SkipAuth disables the authenticity monitors (worlds whose server is not one of Logs); the
 	// config writes are then only checked for a valid signature and a non-decreasing size.
 	SkipAuth bool
+	// FailConfigRead injects an I/O error into the n-th ReadConfig of a file other than "key" (1-based), 0 = never.
+	FailConfigRead int
+	nConfigRead    int
 	// FailConfigWrite injects a non-conflict error into the n-th WriteConfig (1-based), 0 = never.
 	FailConfigWrite int
 	nConfigWrite    int
@@ -270,6 +273,12 @@ func (o *Ops) ReadConfig(file string) ([]byte, error) {
 		return []byte(w.Key.VerifierKey()), nil
 	}
 	w.mu.Lock()
+	w.nConfigRead++
+	if w.FailConfigRead != 0 && w.nConfigRead == w.FailConfigRead {
+		w.mu.Unlock()
+		o.W.log(o.ID, "ReadConfig", file, "injected-error")
+		return nil, fmt.Errorf("injected config read error")
+	}
 	v := append([]byte(nil), w.Config[file]...)
 	w.mu.Unlock()
 	o.W.log(o.ID, "ReadConfig", file, fmt.Sprintf("len=%d", len(v)))
@@ -483,6 +492,20 @@ func Activate(w *World) {
 
 // Deactivate detaches the hooks.
 func Deactivate() { active.Store(nil) }
+
+// ArmConfigReadFault makes the next ReadConfig of a non-key file fail once.
+func (w *World) ArmConfigReadFault() {
+	w.mu.Lock()
+	w.FailConfigRead = w.nConfigRead + 1
+	w.mu.Unlock()
+}
+
+// SecurityMessages returns a copy of the security callback messages so far.
+func (w *World) SecurityMessages() []string {
+	w.mu.Lock()
+	defer w.mu.Unlock()
+	return append([]string(nil), w.Security...)
+}
 
 // Installs returns the sizes installed in memory by a client, in order.
 func (w *World) Installs(client int) []int64 {
